@@ -29,6 +29,7 @@ Script_Links == <<
     Cr("block", 0, "n2", 12), Cr("array", 12, "n1", 13), Cr("group", 12, "n1", 14) >>
 Limit_Links == L(2, 2, 3, 1, 1, 1, 2, 2, 0)
 
+LA(o, l, x) == [name |-> "LinkAppend", o |-> o, l |-> l, x |-> x, out |-> "ok"]
 \* link / unlink / link again on a small block (a link list that becomes empty in between)
 Script_Small == << Cr("block", 0, "n1", 1), Cr("array", 1, "n1", 2), Cr("array", 1, "n2", 3), Cr("group", 1, "n1", 4),
                    Cr("tag", 1, "n1", 5), Cr("source", 1, "n1", 6) >>
@@ -40,9 +41,11 @@ Script_Shadow == << Cr("block", 0, "n1", 1), Cr("array", 1, "n1", 2), Cr("group"
                     Cr("source", 1, "n1", 5), Cr("source", 5, "n1", 6), Cr("source", 1, "n2", 7), Cr("source", 7, "n1", 8) >>
 Limit_Shadow == L(1, 1, 1, 1, 0, 0, 4, 0, 0)
 
+\* ... with members already in the lists (extend() that names a member again before an item it has to refuse)
+Script_Linked == Script_Small \o << LA(4, "data_arrays", 2), LA(5, "references", 3), LA(2, "sources", 6), LA(4, "tags", 5) >>
+
 \* C20: a block with internal structure (group list, tag reference + feature, multi-tag with positions/extents,
 \* nested sources linked from an array, a data frame listed in the group), a nested section with a property, a second (empty) block as destination
-LA(o, l, x) == [name |-> "LinkAppend", o |-> o, l |-> l, x |-> x, out |-> "ok"]
 Script_Copy == <<
     Cr("block", 0, "n1", 1), Cr("array", 1, "n1", 2), Cr("array", 1, "n2", 3), Cr("group", 1, "n1", 4),
     Cr("tag", 1, "n1", 5),
